@@ -34,6 +34,7 @@ type Config struct {
 	SolverLog    string
 	WallDeadline time.Time
 	FPExactAdd   bool
+	SymSlices    bool
 }
 
 type InputVar struct {
@@ -275,6 +276,7 @@ type Worker struct {
 	journal  []journalEnt
 	mergeDepthAbort bool
 	inInit          bool
+	stubs           map[string]Value
 	models          []*evalModel
 	CacheHits       int
 	callStack       []*ssa.Function
@@ -344,6 +346,9 @@ func (w *Worker) runPath(j Job) {
 	w.globals = map[*ssa.Global]*Value{}
 	w.nextBack = 0
 	w.depth = 0
+	w.stubs = nil
+	w.taskSeq, w.curTask = 0, 0
+	w.cfg = w.ex.cfg
 	w.models = nil
 	w.callStack = w.callStack[:0]
 	w.onceDone = map[*Value]bool{}
